@@ -127,6 +127,7 @@ type Exec struct {
 	aborted string
 	topFrame *Frame
 	caseName string
+	nret     int
 }
 
 type effects struct {
